@@ -28,7 +28,7 @@
 #include <unistd.h>
 
 namespace ops {
-MSSMNoFV_onshell* shared_mssm[2]; THDM* shared_thdm[2]; std::string slha_text[2];
+MSSMNoFV_onshell* shared_mssm[2]; THDM* shared_thdm[2]; std::string slha_text[3];
 }
 struct CanaryState { double scratch; int init; double memo; };
 extern CanaryState canary_state;
@@ -79,7 +79,11 @@ static Image shared_bytes() {
    }
    return im;
 }
-static uint64_t hash_shared() { Image im = shared_bytes(); return fnv(im.data(), im.size()); }
+static uint64_t hash_shared() {
+   uint64_t h = 1469598103934665603ull;
+   for (int p = 0; p < 2; p++) { h = fnv((const char*)ops::shared_mssm[p], sizeof(gm2calc::MSSMNoFV_onshell), h); h = fnv((const char*)ops::shared_thdm[p], sizeof(gm2calc::THDM), h); }
+   return h;
+}
 static std::string shared_text() { return ops::text(*ops::shared_mssm[0]) + ops::text(*ops::shared_mssm[1]) + ops::text(*ops::shared_thdm[0]) + ops::text(*ops::shared_thdm[1]); }
 
 // ---------------------------------------------------------------- scheduler
@@ -288,8 +292,14 @@ int main(int argc, char** argv) {
    if (argc < 3) { std::fprintf(stderr, "usage\n"); return 2; }
    std::string repo = argv[1], cmd = argv[2];
    covsig::recording = false;
-   ops::init_shared(repo); init_ops();
+   // pristine image of the static segment, taken before ANY library call: constructing the shared models
+   // below already runs one-time initialisation of function-local statics; the image is put back afterwards
+   // so that "initial" really is the state of a fresh process (a static frozen at its first use must show
+   // up as history dependence, also when the shared models were built from parameter set 0)
    find_regions();
+   Image pristine = snap();
+   ops::init_shared(repo); init_ops();
+   restore(pristine);
    // warm-up: one sequential pass over all library ops so that lazy one-time initialisation
    // (iostream locale facets etc. outside the library) does not show up as thread interaction
    // CONC_WARM=1: run every library op once first, so that one-time initialisation of function-local
